@@ -6,7 +6,7 @@ import Splipy.Lemmas.C18NumberingD
 
 set_option linter.unusedSectionVars false
 
-namespace Splipy.MP
+namespace Splipy.MP.C18L
 
 variable {γ : Type} [Inhabited γ]
 
@@ -173,9 +173,9 @@ theorem runFacts (plans : List PatchPlan) (P : List (NdArr γ))
     · rw [← hN', ← hN']; exact heq
     · rw [← hN']; exact hne
 
-end Splipy.MP
+end Splipy.MP.C18L
 
-namespace Splipy.MP
+namespace Splipy.MP.C18L
 
 variable {γ : Type} [Inhabited γ]
 
@@ -233,4 +233,4 @@ theorem RunFacts.same_point {plans : List PatchPlan} {P : List (NdArr γ)} {N : 
   intro k k' q q' hv hv' hpt
   exact S (max k k' + 1) k k' q q' (by omega) (by omega) hv hv' hpt
 
-end Splipy.MP
+end Splipy.MP.C18L
